@@ -110,6 +110,15 @@ PinnedDeviations == {"last_any_jmp", "lddw_r10", "call_any_slot"}
 \* (for lengths that are not a multiple of 8 the decoded part is irrelevant).
 Verdict(nbytes, p) == R_Len(nbytes) /\ nbytes = 8 * PLen(p) /\ WellFormed(p)
 
+(***************************************************************************)
+(* Compilation contract (C08, C12): for a well-formed program, compiling   *)
+(* succeeds iff every helper it calls is registered (helper addresses are  *)
+(* bound at compile time) and - for Cranelift - it makes no local call.    *)
+(***************************************************************************)
+HelperIdsUsed(p) == { p[s].i.imm : s \in { x \in RealSegs(p) : p[x].i.opc = CALL /\ p[x].i.src = 0 } }
+HasLocalCall(p)  == \E s \in RealSegs(p) : p[s].i.opc = CALL /\ p[s].i.src = 1
+CompileOk(p, H, eng) == HelperIdsUsed(p) \subseteq H /\ (eng = "cl" => ~HasLocalCall(p))
+
 \* names of the rules a program violates (evidence / witnesses)
 Violated(p) == {r \in {"last", "opcode", "regs", "lddw", "jump", "call", "endian", "xadd", "len"} :
    CASE r = "last"   -> ~R_Last(p, {})
